@@ -639,6 +639,19 @@ class Interp:
     def _ctor_call(self, call):
         """`f(x)` where the function value f is a tuple-variant / tuple-struct constructor of a crate type
         (`wrap: impl FnOnce(T) -> Packet` called with `Packet::V5`): the aggregate it builds."""
+        if call[0] == "call" and call[2] is None and len(call[3]) >= 2:
+            # call through a function pointer: `wrap: fn(T) -> Packet` called with `Packet::V5 as fn(..)`
+            f = call[3][0]
+            while f[0] in ("ref", "deref") or (f[0] == "cast" and (str(f[1]).startswith("PointerCoercion") or "Reify" in str(f[1]))):
+                f = f[1] if f[0] != "cast" else f[2]
+            if f[0] == "constfn" and "::" in f[1].path:
+                adt_path, variant = f[1].path.rsplit("::", 1)
+                adt = self.prog.adts.get(adt_path)
+                if adt is not None:
+                    for v in adt["variants"]:
+                        if v["name"] == variant and len(v["fields"]) == len(call[3]) - 1:
+                            return ("agg", adt_path, variant, list(call[3][1:]), [fl["name"] for fl in v["fields"]])
+            return call
         if call[0] != "call" or call[2] is None or _n(call[2]) not in FN_CALL_ONCE or len(call[3]) != 2:
             return call
         f = call[3][0]
